@@ -37,6 +37,9 @@ func init() {
 			if s, ok, err := mixReplay(raw); ok {
 				return s, err
 			}
+			if s, ok, err := mixChainReplay(raw); ok {
+				return s, err
+			}
 			var r c02Replay
 			json.Unmarshal(raw, &r)
 			res := safeDecode(bytes.NewReader(vx.UnHex(r.Hex)))
@@ -199,6 +202,7 @@ func runC02(w *vx.W) {
 		mixLen = 4
 	}
 	mixFamily(w, mixLen)
+	c10MixChains(w) // the same words as members of a chain: values and routing must not depend on an earlier member
 	// ---- record independence on the device-file corpus and the shared streams
 	for i, path := range corpusFiles() {
 		if !w.Mine(int64(i)) {
